@@ -76,6 +76,27 @@ def adversarial(rng, prog, opts=None):
                     nm = rng.choice(free)
             used[d["pkg"]].add(nm)
             d["name"] = nm
+    # type names that begin with a non-ASCII letter, the same one in two packages (so that the second local needs the
+    # package-prefixed form); own random stream
+    import random as _random
+    import zlib
+    from .common import seed as _seed
+    r5 = _random.Random(zlib.crc32(("%s/nonascii/%s" % (prog.name, _seed())).encode()))
+    if r5.random() < opts.get("p_nonascii_types", 0.2):
+        nm = r5.choice(["Ärger", "Über", "Ωmega", "Éclair", "Ñu", "Øre"])
+        bypkg = {}
+        for d in ents:
+            if "fields" in d:           # struct types only
+                bypkg.setdefault(d["pkg"], []).append(d)
+        picked = 0
+        for pk in sorted(bypkg):
+            if nm not in used[pk] and picked < 2:
+                d = r5.choice(bypkg[pk])
+                used[pk].discard(d["name"])
+                used[pk].add(nm)
+                d["name"] = nm
+                picked += 1
+        prog.nonascii = picked > 0
     # the local that holds a provider's result is named after its type: let the types that cleanup-returning (and
     # error-returning) providers construct be called like the cleanup / error variables Wire invents next to them
     if rng.random() < opts.get("p_cleanup_types", 0.35):
@@ -314,6 +335,10 @@ def name_correspondence(units):
         byp.setdefault(ur.prog.name, []).append(ur)
     reqs, exps = [], []
     for name, urs in byp.items():
+        if getattr(urs[0].prog, "nonascii", False):
+            # the name model lower-cases ASCII only (Unicode case tables are not modelled): these programs are judged by compiling
+            # and running them, not by the name-level correspondence
+            continue
         r = name_events(urs[0].prog, urs)
         if r:
             reqs.append(r[0])
